@@ -428,8 +428,8 @@ def c13():
         j("c13_clone_two_archetypes_2_3", Q, 150, "two populated archetypes: each archetype of the clone equals the same archetype of the original; with_capacity maps capacities per archetype"),
         J("c17_clone_events_2", Q, 150, what="feature events: from an arbitrary state with an arbitrary history of pending events (pending logs that are NOT the list of live rows) the clone reports exactly the same pending created/destroyed events (light harness: its counterexamples replay)", bounds=b, assumes=a, features=("events",)),
         J("c17_clone_events_api", Q, 100, what="feature events: the clone's pending events on a concrete short public-API history (with / without a clear in between)", bounds=b, assumes=(), features=("events",)),
-        J("c17_clear_arch_clone_2", Q, 250, what="feature events: the clone carries the same pending created/destroyed events; clearing one side does not clear the other",
-          bounds=b, assumes=a, features=("events",)),
+        J("c17_clear_arch_clone_2", T, 550, what="feature events: the clone carries the same pending created/destroyed events; clearing one side does not clear the other",
+          bounds=b, assumes=a, features=("events",), mem_kb=40_000_000),
     ]
 
 
@@ -536,8 +536,8 @@ def c17():
         J("c17_iter_destroy_2", T, 200, what="events + wrapping_version: ecs_iter_destroy! logs each destruction once", bounds=b, assumes=a, features=("events", "wrapping_version")),
         j("c17_delta_reads_2", T, 100, "queries and reads never touch the logs"),
         j("c17_iter_destroy_2", Q, 200, "ecs_iter_destroy! logs each destruction once, in order"),
-        j("c17_clear_arch_clone_2", Q, 250, "Archetype::clear_events empties both logs, nothing else changes; clone carries the pending events"),
-        j("c17_clear_world_clone_1", T, 250, "World::clear_events"),
+        J("c17_clear_arch_clone_2", T, 550, what="Archetype::clear_events empties both logs, nothing else changes; clone carries the pending events", bounds=b, assumes=a, features=f, mem_kb=40_000_000, timeout=3000),
+        j("c17_clear_world_clone_1", Q, 250, "World::clear_events empties both logs of every archetype, nothing else changes; clone carries the pending events (N=1)"),
         j("c17_clone_events_2", Q, 150, "the clone's pending events alone: equal to the original's for every history of pending events"),
         j("c17_clone_events_api", Q, 100, "the clone's pending events on a concrete short public-API history (with / without a clear in between): cheap enough to stay decidable whatever containers a changed clone builds its logs with"),
         j("c17_clear_destroy_only_arch_2", Q, 200, "a window with destructions but no creations is cleared too (archetype level)"),
